@@ -16,7 +16,7 @@ the same ops run through `zvbi_model trig`; outputs are diffed (a fault predicte
 report of the real code and vice versa) and the real code's outputs are judged by lib/trig_util.judge."""
 import os, re, subprocess, sys
 sys.path.insert(0, os.path.join(os.path.dirname(os.path.abspath(__file__)), "..", "lib"))
-import verif, decgen, trig_util
+import verif, decgen, trig_util, nav_util
 import ttxenc as T
 
 # flat walks over a whole 2-D member array (never leave the array object): not findings (DESIGN.md 4b)
@@ -49,7 +49,7 @@ def _addr_only(report):
 class C01(verif.Spec):
     prop = "C01"
     comp = "dec"
-    lean_modules = ["ZvbiModel.Props.C01", "ZvbiModel.Props.C01Ttx", "ZvbiModel.Props.C01Enh", "ZvbiModel.Props.C01Seq", "ZvbiModel.Props.C01Cells", "ZvbiModel.Props.C01Trig"]
+    lean_modules = ["ZvbiModel.Props.C01", "ZvbiModel.Props.C01Ttx", "ZvbiModel.Props.C01Enh", "ZvbiModel.Props.C01Seq", "ZvbiModel.Props.C01Cells", "ZvbiModel.Props.C01Nav", "ZvbiModel.Props.C01Trig"]
     harness = "dec_harness"
     timeout_per_case = 20.0
     partial_note = ("proved: the enumerated safety obligations on the component models (Props/C01.lean recursion bound, "
@@ -64,13 +64,19 @@ class C01(verif.Spec):
                     "Level 1 double height copy, character_set_designation in range; column_41 in range iff its body loops stop at row 23 "
                     "(counterexample + known finding C01-column41-navrow on the unchanged tree); all guards / masks / loop bounds regenerated by "
                     "translate/gen_c01cells.py; "
+                    "Props/C01Nav.lean: the Level 1 character loop of vbi_format_vt_page for every page content and display_rows (every index into "
+                    "lop.raw[0][], buf[], pg->text[], pg->font[], page_opacity[], the arguments of vbi_teletext_unicode and its table index), keyword() and "
+                    "zap_links() for every row content (buffer[43], link[43], ld.url[256]; scans stop at the sentinels), flof_navigation_bar, flof_links, "
+                    "top_label, top_index cell / nav_link[] / nav_index[] stores in range, all numbers regenerated by translate/gen_c01nav.py; zap_links stores an "
+                    "uninitialised link flag for trailing OVER_TOP cells (counterexample theorem, determinism oracle, known finding "
+                    "C01-zap-links-uninit-link; positive theorem for the repaired shape); "
                     "Props/C01Trig.lean: trigger.c parsers never access memory outside the caller's string / url[] / buf[] / name[] / "
                     "script[] for any byte string, terminate within strlen + 2 iterations, accept a checksum attribute only when it "
                     "verifies, trigger list allocations balanced over all histories, itv_buf index <= 255 - for the source forms "
                     "with fixes/C01-trig-*.diff; on the original forms five counterexample theorems + replays); "
                     "sanitizer-exercised only: exporters (html, vtx, png, xpm, ppm), ure.c regex engine, conv.c/iconv, "
                     "the attribute VALUES merged by enhance_flush (addresses are proved), DRCS look-up references and pg->drcs[] lifetime (F6), "
-                    "top_label / top_index cell writes, MIP/MPT parsers beyond their index bounds, the Teletext trigger page path of "
+                    "the label TEXT of the TOP navigation bar and vbi_resolve_link's own buffer loop (cell positions / keyword are proved), MIP/MPT parsers beyond their index bounds, the Teletext trigger page path of "
                     "packet.c (eacem_trigger: only its extent is a theorem)")
     assumptions = ["malloc does not fail", "callers pass buffers / canvases of the documented size"]
     trusted_base = ["harness/dec_harness.c + lean/Driver/Dec.lean (every well-formed op must return `ok`)",
@@ -85,13 +91,21 @@ class C01(verif.Spec):
                     "translate/gen_enh.py, translate/gen_c01.py (regex extraction of guards / release paths / expressions from "
                     "the C text, C probe for the layout; they stop with an error when the text is not recognised)",
                     "int is 32-bit two's complement (add_modulo is evaluated on BitVec 32)",
+                    "translate/gen_c01nav.py (statement skeleton digest per function + ordered literal list; C probe that #includes lang.c for table extents / font "
+                    "table); harness/nav_harness.c + lean/Driver/Nav.lean + lean/ZvbiModel/Nav/Page.lean (composition) + Fmt/Model.lean (C02's Level 1 model: attribute state "
+                    "of the access log); ctype.h / strncasecmp in the C locale; the cached page holds the whole lop struct (Props/C01Enh format_reads_within_size); "
+                    "AIT title bytes <= 0x7F because parse_ait stores vbi_unpar8 results into a cleared page",
                     "harness/trig_harness.c + lean/Driver/Trig.lean; translate/gen_trig.py (regex extraction of limits / table counts / "
                     "code forms from trigger.c, caption.c, packet.c plus a digest of the remaining function text; C probe for the "
                     "extents); vbi->time restricted to whole seconds in the trig stream (frame arithmetic then exact); TZ=UTC; "
                     "uninitialised heap modelled as the harness allocator's 0xAA fill"]
     open_statements = ["whole-library memory safety for all inputs (only the enumerated obligations are theorems)",
-                       "the Level 1 character loop of vbi_format_vt_page beyond its double height copy, zap_links / flof / top navigation cell "
-                       "writes (sanitizer + intra-object audit only)",
+                       "vbi_resolve_link: its own row-to-buffer loop (j = b = -1 restarts) and the second keyword() call at b + 1 are not modelled "
+                       "(keyword_in_range covers the callee for columns 1 .. len of a well-formed buffer; sanitizer-exercised by the `resolve` op)",
+                       "TOP navigation in the nav correspondence stream (top_label / top_navigation_bar cell positions and nav stores are theorems; the "
+                       "executable comparison covers Level 1 + zap_links + FLOF only - TOP bars are exercised by the dec stream under ASan)",
+                       "attribute VALUES of the Level 1 loop (C02 owns their round trip); termination of the Level 1 row loop is structural (row strictly "
+                       "increases below display_rows <= 25; the access theorem holds for every iteration bound)",
                        "trigger round trip for all well-formed triggers (sender = lib/trig_util.Trig; checked by the oracle on "
                        "generated triggers, not a theorem)"]
 
@@ -199,8 +213,46 @@ class C01(verif.Spec):
         self.extra_coverage = {}
         if ctx.get("replay"):
             c = ctx["cases"][0] if ctx["cases"] else []
+            if nav_util.is_nav(c):
+                return self._nav_stage(ctx, [c])
             return self._trig_stage(ctx, [c]) if self._is_trig(c) else self._bounds_stage(ctx)
-        return self._bounds_stage(ctx) + self._trig_stage(ctx, None)
+        return self._bounds_stage(ctx) + self._trig_stage(ctx, None) + self._nav_stage(ctx, None)
+
+    def _nav_stage(self, ctx, only):
+        """formatter / navigation: Lean model (Fmt.Model Level 1 loop with display_rows, Nav.Model zap_links / keyword / FLOF) against
+        vbi_format_vt_page of the real code on fabricated pages (harness/nav_harness.c ~ `zvbi_model nav`, lib/nav_util.py)"""
+        out, cov = nav_util.nav_stage(ctx, prop=self.prop, only=only)
+        # determinism oracle (the property itself, independent of the model): the formatted page must be a function of the
+        # cached page and the arguments - the same `nav` op after `dirty 0` and after `dirty 255` (harness op: fills the stack
+        # region the next call uses) must print the same page.  A difference = an automatic variable read before it was written.
+        import random as _r
+        ops = []
+        if only is not None:
+            ops = [l for c in only for l in c if l.startswith("nav ")]
+        else:
+            for f, lines in verif.corpus_cases(self.prop):
+                if nav_util.is_nav(lines):
+                    ops += [l for l in lines if l.startswith("nav ")]
+            r2 = _r.Random(ctx["rng"].random())
+            for _ in range(40 if ctx["tier"] == "quick" else 400):
+                ops += [l for l in nav_util.gen_case(r2) if l.startswith("nav ")][:1]
+        exe, err = verif.build_harness("nav_harness")
+        differ, first = 0, None
+        if exe is not None and ops:
+            a, ia = verif.run_side([exe], [["dirty 0", o] for o in ops], 5.0)
+            b, ib = verif.run_side([exe], [["dirty 255", o] for o in ops], 5.0)
+            for i, o in enumerate(ops):
+                x, y = a.get(i, []), b.get(i, [])
+                if len(x) == 2 and len(y) == 2 and x[1] != y[1]:
+                    differ += 1
+                    if first is None or len(o) < len(first):
+                        first = o
+        cov["determinism_oracle"] = {"ops": len(ops), "pages_depending_on_stack_content": differ}
+        if first is not None:
+            out.append(("nav: zap_links stores an indeterminate link attribute: the link bit of a trailing OVER_TOP / OVER_BOTTOM "
+                        "cell follows the previous content of the stack (link[] is read at an element no iteration wrote)", [first]))
+        self.extra_coverage["nav"] = cov
+        return out
 
     def _trig_stage(self, ctx, only):
         """trigger.c: correspondence model ~ real code on the trig stream + oracle (lib/trig_util.judge)"""
